@@ -139,7 +139,7 @@ def program(rng, pid, profile=None):
         elif what == "update":
             p = rng.choice(scheds())
             args = [a for a in flat_args(3) if a.get("id") != p]
-            steps.append(st("update", p, args=args))
+            steps.append(st("update", p, args=args, x=rng.randrange(4)))
         else:
             p = rng.choice(scheds())
             pool = [i for i in joblike() if i != p]
